@@ -110,6 +110,23 @@ def gen_cfg(r, tier, dims=(1, 2, 2, 2, 3, 3, 4), versions=(6, 6, 6, 2, 3, 7, 8),
             if r.random() < 0.5:
                 cfg.update(dim=r.choice([1, 2]), lmin=3, lmax=r.choice([3, 4]), safety=r.choice([0.0, 0.1]))
                 cfg["a"], cfg["b"] = cfg["a"][:cfg["dim"]], cfg["b"][:cfg["dim"]]
+    if max_evals is None and not cfg.get("long_narrow") and r.random() < 0.1:
+        # sharply localised driver: per dimension the interval containing one target point is refined step after step while the
+        # rest of the dimension stays at its initial depth (lmax raised repeatedly next to untouched regions), from start
+        # levels with lmax - lmin >= 2
+        dim = r.choice([2, 2, 3])
+        lmin = r.choice([1, 1, 2])
+        cfg.update(dim=dim, lmin=lmin, lmax=lmin + (r.choice([2, 2, 3]) if dim == 2 else 2), margin=r.choice([0.9, 1.0]), mode="mix",
+                   evals=r.randint(3, 6 if tier == "quick" else 8), max_intervals=90, focus=True, p_tie=0.0,
+                   bias=["focus", [r.choice([0.1, 0.3, 0.3, 0.55, 0.8, 0.95]) for _ in range(dim)], r.choice([0.0, 0.01, 0.3])])
+        cfg["a"] = (cfg["a"] + [0.0] * dim)[:dim]
+        cfg["b"] = [x + r.choice(W_CHOICES) for x in cfg["a"]]
+    # benefit scale and answers placed just below / just above the margin fraction of the largest answer: the selection rule
+    # is a comparison of floats, not "close to"
+    cfg["scale"] = r.choice([1.0] * 6 + [1e-9, 1e-12, 1e-15, 1e7])
+    cfg["p_near"] = r.choice([0.0, 0.0, 0.0, 0.15, 0.3]) if not cfg.get("bias") else 0.0
+    if cfg["p_near"] and cfg["p_tie"] == 0.0 and not cfg.get("long_narrow"):
+        cfg["p_tie"] = 0.1
     return cfg
 
 
@@ -117,7 +134,7 @@ def simplify_cfg(s):
     """configuration simplifications shared by the dimension-wise checks"""
     c = s["config"]
     for k, v in (("rebalancing", False), ("jump", False), ("clock_jumps", False), ("recalc", None), ("mode", "mix"),
-                 ("use_epoch", False), ("nnoise", 1), ("safety", 0.1), ("norm", "inf")):
+                 ("scale", 1.0), ("p_near", 0.0), ("use_epoch", False), ("nnoise", 1), ("safety", 0.1), ("norm", "inf")):
         if k in c and c[k] != v:
             n = copy.deepcopy(s); n["config"][k] = v; yield n
     if c.get("evals", 1) > 1:
@@ -210,7 +227,8 @@ class DimwiseSim:
         else:
             self.err = SimErrorCalculator(self.rk, p_zero=c["p_zero"], p_tie=c["p_tie"], mode=c.get("mode", "mix"),
                                           use_epoch=c.get("use_epoch", False), bias=tuple(c["bias"]) if c.get("bias") else None,
-                                          domain=(list(c["a"]), list(c["b"])))
+                                          domain=(list(c["a"]), list(c["b"])), scale=c.get("scale", 1.0),
+                                          near=(c["margin"], c["p_near"]) if c.get("p_near") else None)
         return self
 
     # -- driver -----------------------------------------------------------
